@@ -37,7 +37,18 @@ func runChild(c ccase) (cres, error) {
 			}
 		}
 	}
-	tail := errb.String()
+	stderr := errb.String()
+	if i := strings.Index(stderr, "panic: "); i >= 0 &&
+		(strings.Contains(stderr[i:], "exec.(*machineManager).") || strings.Contains(stderr[i:], "exec.schedule(")) {
+		// The machine manager of the real code panicked and took the process down.
+		trace := stderr[i:]
+		if len(trace) > 1800 {
+			trace = trace[:1800]
+		}
+		return cres{ID: c.ID, Name: c.Name(), Path: "process-crash", Fired: true,
+			Violations: map[string]string{"machine-manager-panics": trace}}, nil
+	}
+	tail := stderr
 	if len(tail) > 1500 {
 		tail = tail[len(tail)-1500:]
 	}
@@ -183,7 +194,13 @@ func runCluster(r *ev.Run) (map[string]interface{}, int64, int64) {
 	}
 	results := make([]cres, len(cases))
 	errs := make([]error, len(cases))
-	ev.Parallel(len(cases), 8, func(i int) {
+	// VERIF_SEED only rotates the order in which the (complete) list is visited.
+	rot := 0
+	if len(cases) > 0 {
+		rot = int(uint64(r.Seed) % uint64(len(cases)))
+	}
+	ev.Parallel(len(cases), 8, func(k int) {
+		i := (k + rot) % len(cases)
 		results[i], errs[i] = runChild(cases[i])
 	})
 
